@@ -46,6 +46,13 @@ def gen_cases(tier: str, seed: int):
             if k in zoo.TRACTABLE:
                 spec["metric"] = mk
             yield {"spec": spec, "seed": [seed, int(rng.integers(0, 2**31))]}
+    # directed: raw array metrics at extreme overall scales
+    for k in zoo.TRACTABLE:
+        for mk in ("dense_array", "diag_array"):
+            for sc in (1e-8, 1e-12, 1e-4, 1e6):
+                spec = zoo.random_sys_spec(rng, kinds=(k,), dim_range=(2, 4))
+                spec["metric"], spec["metric_scale"] = mk, sc
+                yield {"spec": spec, "seed": [seed, int(rng.integers(0, 2**31))]}
     # directed: SoftAbs systems at positions where the Hessian has exactly / nearly repeated eigenvalues (eigenvalue
     # crossings: third derivatives do not vanish), whose eigenvectors are not axis aligned
     for k in range({"quick": 24, "thorough": 600}[tier]):
@@ -139,20 +146,53 @@ def run_case(case, obs) -> None:  # noqa: C901, PLR0912, PLR0915
         "grad_neg_log_dens": (lambda st: s.grad_neg_log_dens(st), m.target.grad(q), TOL_V),
         "neg_log_dens": (lambda st: s.neg_log_dens(st), m.target.f(q), TOL_V),
     }
-    st = fresh()
     names = list(refs)
-    seq = [names[i] for i in rng.integers(0, len(names), 10)]
-    seq[int(rng.integers(1, 10))] = seq[0]  # at least one repeat of the same method
+    # two more points: the state's variables are re-assigned between calls (position only, momentum only, or both)
+    qb, pb = m.random_point(rng, scale=0.7)
+    points = {"q": [q, qb], "p": [p, pb]}
+    memo = {}
+
+    def ref_at(nm, qi, pi):
+        if (nm, qi, pi) not in memo:
+            qq, pp = points["q"][qi], points["p"][pi]
+            memo[nm, qi, pi] = {
+                "h1": lambda: m.ref_h1(qq), "h2": lambda: m.ref_h2(qq, pp), "h": lambda: m.ref_h(qq, pp),
+                "dh1_dpos": lambda: zoo.fd_grad(m.ref_h1, qq, hq),
+                "dh2_dpos": lambda: zoo.fd_grad(lambda x: m.ref_h2(x, pp), qq, hq),
+                "dh2_dmom": lambda: zoo.fd_grad(lambda x: m.ref_h2(qq, x), pp, hq),
+                "dh_dpos": lambda: zoo.fd_grad(lambda x: m.ref_h(x, pp), qq, hq),
+                "dh_dmom": lambda: zoo.fd_grad(lambda x: m.ref_h(qq, x), pp, hq),
+                "grad_neg_log_dens": lambda: m.target.grad(qq), "neg_log_dens": lambda: m.target.f(qq),
+            }[nm]()
+        return memo[nm, qi, pi]
+
+    st = fresh()
+    qi = pi = 0
+    seq = [names[i] for i in rng.integers(0, len(names), 14)]
+    seq[int(rng.integers(1, 14))] = seq[0]  # at least one repeat of the same method
     base_tag, tagbase = tagbase, f"{cname}:on-reused-state"
     done = []
     for k, nm in enumerate(seq):
-        fn, ref, tol = refs[nm]
-        target = st if k < 6 else st2
-        if k == 5:
-            st2 = st.copy()
+        tol = refs[nm][2]
+        if k == 7:
+            st = st.copy()
+            done.append("copy")
+        ev = int(rng.integers(0, 6)) if k else 5
+        if ev == 0:
+            qi = 1 - qi
+            st.pos = points["q"][qi].copy()
+            done.append(f"pos=q{qi}")
+        elif ev == 1:
+            pi = 1 - pi
+            st.mom = points["p"][pi].copy()
+            done.append(f"mom=p{pi}")
+        elif ev == 2:
+            qi, pi = 1 - qi, 1 - pi
+            st.pos, st.mom = points["q"][qi].copy(), points["p"][pi].copy()
+            done.append(f"pos=q{qi},mom=p{pi}")
         done.append(nm)
-        note[0] = f" after calls {done} on one state" + (" (last ones on a copy)" if k >= 6 else "")
-        judge(nm, fn(target), ref, tol)
+        note[0] = f" after history {done} on one state object"
+        judge(nm, refs[nm][0](st), ref_at(nm, qi, pi), tol)
     obs.count("reused_state_histories")
     tagbase = base_tag
     note[0] = ""
@@ -184,8 +224,7 @@ def run_case(case, obs) -> None:  # noqa: C901, PLR0912, PLR0915
         new_arg, new_dense = zoo.const_metric(str(rng.choice(["diag", "dense", "scaled", "chol_lower", "eig", "lowrank_plus"])), m.dim, rng)
         s.metric = new_arg
         m.metric_dense = new_dense
-        if m.constrained:
-            p = m.ref_projector(q) @ p
+        q, p = m.random_point(rng, scale=0.8)  # momentum on the scale of the new metric (and cotangent for it)
         tagbase = f"{cname}:after-metric-reassignment"
         judge("h2", s.h2(fresh()), m.ref_h2(q, p), TOL_V)
         judge("h", s.h(fresh()), m.ref_h(q, p), TOL_V)
